@@ -60,3 +60,7 @@ def run(R, tier, rng):
             R.violation(case, "case missing under the 32-bit configuration"); continue
         R.record(case, fam32[case][0], i64, i64, nt, "w32/" + kind.split("/")[0], py=(py or case) + "   [ViewBase.set_dtype(np.int32) vs np.int64]")
     R.notes["cases_per_configuration"] = len(lines) + len(fam64)
+
+
+def translator_tie():
+    return vlib.translator_tie(["view"])
